@@ -328,9 +328,60 @@ def window_nested_spec(draw):
 
 
 @st.composite
+def anchored_lag_spec(draw):
+    """family for lags given as anchored offsets on a seven-day calendar: BDay(0) / MonthEnd(0) subtracted from a weekend or mid-month
+    date give a LATER date, so 'now - lag' lies in the future on those rows; every window still has to end at now"""
+    import datetime as dt
+
+    start = draw(st.sampled_from(["2021-02-08", "2019-12-23", "2020-02-24", "2023-06-26"]))
+    ds = draw(gen.dates(10, 20, kinds=("daily",), start=start))
+    n = len(ds)
+    nt = draw(st.integers(2, 4))
+    tickers = gen.TICKERS[:nt]
+    pr = draw(gen.prices(n, tickers, n_clean=nt, vol=draw(st.sampled_from([0.03, 0.1]))))
+    lag = draw(st.sampled_from([{"bday": 0}, {"bday": 0}, {"monthend": 0}]))
+    lb = {"days": draw(st.integers(4, 12))}
+    kind = draw(st.sampled_from(["momentum", "momentum", "invvol", "erc", "targetvol", "setstat"]))
+    frames = {}
+    if kind == "momentum":
+        mid = [["SelectAll", {}], ["SelectMomentum", {"n": draw(st.integers(1, nt - 1)), "lookback": lb, "lag": lag}], ["WeighEqually", {}]]
+    elif kind in ("invvol", "erc"):
+        mid = [["RunAfterDays", {"days": 5}], ["SelectAll", {}], [{"invvol": "WeighInvVol", "erc": "WeighERC"}[kind], {"lookback": lb, "lag": lag}]]
+    elif kind == "targetvol":
+        mid = [["RunAfterDays", {"days": 5}], ["SelectAll", {}], ["WeighEqually", {}], ["TargetVol", {"target": 0.1, "lookback": lb, "lag": lag}]]
+    else:
+        frames["f"] = {"kind": "frame", "cols": {t: [round(draw(st.floats(-1, 1, allow_nan=False)), 3) for _ in range(n)] for t in tickers}}
+        mid = [["SetStat", {"frame": "f", "by_name": draw(st.booleans()), "lag": lag}], ["SelectN", {"n": draw(st.integers(1, nt - 1))}], ["WeighEqually", {}]]
+    spec = {
+        "dates": ds,
+        "prices": pr,
+        "rng_seed": 0,
+        "frames": frames,
+        "additional": sorted(frames),
+        "integer_positions": draw(st.booleans()),
+        "initial_capital": 1e6,
+        "fee": {"kind": "none"},
+        "tree": {"name": "root", "kind": "Strategy", "algos": [["RunDaily", {}]] + mid + [["Rebalance", {}]]},
+        "family": "anchored_lag",
+    }
+    # aim the cut at a row from which 'now - lag' points forward (a weekend for BDay(0), any day but the month end for MonthEnd(0))
+    fwd = [i for i, d in enumerate(ds[:-1]) if (dt.date.fromisoformat(d[:10]).weekday() >= 5 if "bday" in lag else True) and i >= 5]
+    if fwd:
+        spec["perturb"] = {
+            "cut": draw(st.sampled_from(fwd)),
+            "factors": draw(st.lists(st.sampled_from([0.5, 0.7, 1.4, 2.0, 0.9, 1.1]), min_size=5, max_size=20)),
+            "list_early": False,
+            "delist": None,
+        }
+    return spec
+
+
+@st.composite
 def pair_spec(draw):
-    k = draw(st.integers(0, 20))
-    if k == 20:
+    k = draw(st.integers(0, 21))
+    if k == 21:
+        spec = draw(anchored_lag_spec())
+    elif k == 20:
         spec = draw(window_nested_spec())
     elif k < 4:
         spec = draw(sparse_frame_spec())
